@@ -246,7 +246,9 @@ def reassemble_in_kit_vector(ctx, name, Nc, ptext, wit, rng):
         ctx.violation("reassembled-product-wrong:kit-vector:" + name, "%s: product in %s is not vector fragment + product fragment" % (name, KV.__name__), next_vector=vtext, **wit)
 
 
-def one_triple(ctx, name, Vc, Mc, Nc, rng):
+def one_triple(ctx, name, Vc, Mc, Nc, rng, inputs_only=False):
+    """`inputs_only`: stop after building the vector and insert plasmids and return (vector text, [module texts]) - used by
+    other checks as a generator of well-formed kit-class assemblies"""
     enz, nenz = Vc.cutter, Nc.cutter
     geom = refmodel.geometry(enz)
     site, n_, k = geom
@@ -324,6 +326,8 @@ def one_triple(ctx, name, Vc, Mc, Nc, rng):
             mods.append(sm)
             parts.append(ov[i] + t)
         insert = "".join(parts)
+    if inputs_only:
+        return sv, mods
     # own stream: an unresolved base call (any IUPAC code) in the vector's backbone, far from every site: it travels into the
     # product, which the next level must still accept
     rd = gen.rng_for("c11-degenerate", name, sv[:24], len(sv))
